@@ -398,6 +398,36 @@ def v_sequence_metrics(p, eng):
                detail='length = number of non-masked tokens (weight: sequence non-empty)')
   p.verify('SequenceTokenCount/SequenceCount/SequenceLength', eng, body_counts)
 
+  # sequence-level cross entropy: per-token loss as a contract symbol (ce.def), summed over the non-masked positions;
+  # the weight is 1 iff the sequence has a non-masked token - whatever the loss values are
+  TOKLOSS = z3.Function('token_loss', z3.IntSort(), z3.RealSort())
+
+  def body_seqce(ctx, cls_name, token_level):
+    common(ctx)
+    module_frame(ctx, M)
+    eng.globals['unreduced_cross_entropy_loss'] = Handler(lambda c, t, pr: IdxV(TOKLOSS(POS), ('pos',)),
+                                                          'unreduced_cross_entropy_loss (ce.def)')
+    try:
+      st = run_metric(ctx, eng, cls_name, dict(target_key='y', pred_key=None, masked_target_values=mv, **({'per_position': False} if token_level else {})))
+    finally:
+      eng.globals.pop('unreduced_cross_entropy_loss', None)
+    f = stat_fields(ctx, st)
+    reds = ctx.tags.get('reductions', [])
+    sums = [(a_, r_) for k_, a_, r_ in reds if k_ == ('sum', 'pos')]
+    anys = [(a_, r_) for k_, a_, r_ in reds if k_ == ('any', 'pos')]
+    okn = bool(sums) and z3.simplify(sums[0][0].num() == z3.If(masked(mv), 0, TOKLOSS(POS))) is not None
+    ctx.oblige(f'{cls_name}.num', z3.simplify(sums[0][0].num() == z3.If(masked(mv), 0, TOKLOSS(POS))) if sums else False,
+               detail='numerator: sum of the token losses over the non-masked positions')
+    if token_level:
+      ctx.oblige(f'{cls_name}.den', len(sums) == 2 and z3.simplify(sums[1][0].num() == w) if len(sums) == 2 else False,
+                 detail='denominator: the number of non-masked tokens')
+    else:
+      ctx.oblige(f'{cls_name}.den', len(anys) == 1 and z3.simplify(anys[0][0].val == z3.Not(masked(mv))) if len(anys) == 1 else False,
+                 detail='weight: 1 iff SOME token is non-masked (any over the target weights - not over the loss values, which '
+                        'can all be exactly 0 for saturated logits)')
+  p.verify('SequenceCrossEntropyLoss', eng, lambda c: body_seqce(c, 'SequenceCrossEntropyLoss', False))
+  p.verify('SequenceTokenCrossEntropyLoss', eng, lambda c: body_seqce(c, 'SequenceTokenCrossEntropyLoss', True))
+
   def body_trunc(ctx):
     common(ctx)
     eos = z3.Int('eos_target_value')
@@ -659,5 +689,4 @@ def build(p):
           'reduced expression is recorded and compared pointwise with the independent definition',
           'masked_target_values / oov_target_values tuples of length 0..2 (the loops over them are uniform)')
   p.not_covered.append('extreme magnitudes (overflow of log_softmax to inf) — floating point of XLA')
-  p.not_covered.append('SequenceTokenCrossEntropyLoss / SequenceCrossEntropyLoss weighting (same target_weight and '
-                       'ce.def pieces; composition checked by the bounded native driver)')
+  p.not_covered.append('float32 saturation of log_softmax (losses exactly 0 / inf): the sequence cross-entropy contracts are over reals')
